@@ -7,6 +7,7 @@ import (
 	"errors"
 	"fmt"
 	"io"
+	"net/http"
 	"net/http/httptest"
 	"sort"
 	"strings"
@@ -56,10 +57,40 @@ type c12Case struct {
 	Major       int    `json:"major"`
 	Minor       int    `json:"minor"`
 	ContentType string `json:"content_type"`
+	// Prior: a request the same Handler served before the judged one (dispatch
+	// must not depend on history): "" none, "415" (POST text/plain), "405" (GET),
+	// or "ct:<type>" (a POST with that advertised Content-Type).
+	Prior string `json:"prior,omitempty"`
 }
 
 func (k c12Case) key() string {
+	if k.Prior != "" {
+		return fmt.Sprintf("%s/%s/%s/HTTP%d.%d/%q/after-%s", k.Kind, k.Codecs, k.Method, k.Major, k.Minor, k.ContentType, k.Prior)
+	}
 	return fmt.Sprintf("%s/%s/%s/HTTP%d.%d/%q", k.Kind, k.Codecs, k.Method, k.Major, k.Minor, k.ContentType)
+}
+
+// c12Request builds the request of a case.
+func c12Request(kind Kind, codecs, method string, major, minor int, contentType string) *http.Request {
+	payload, _ := proto.Marshal(&BV{Value: []byte{5}})
+	if strings.HasSuffix(contentType, "json") {
+		payload = []byte(`"BQ=="`)
+	}
+	body := envelope(0, payload)
+	if kind == KUnary && !strings.HasPrefix(contentType, "application/grpc") {
+		body = payload
+	}
+	if kind == KUnary && codecs == "grpc-named" && contentType == "application/grpc" {
+		body = payload // claimed by the Connect protocol with the codec named "grpc"
+	}
+	req := httptest.NewRequest("POST", "http://mem.test"+Procedure, bytes.NewReader(body))
+	req.Method = method
+	req.ProtoMajor, req.ProtoMinor = major, minor
+	req.Proto = fmt.Sprintf("HTTP/%d.%d", major, minor)
+	if contentType != "" {
+		req.Header.Set("Content-Type", contentType)
+	}
+	return req
 }
 
 // c12Reference is the advertised set computed from the property text.
@@ -170,6 +201,10 @@ func (ci countI) WrapStreamingHandler(next connect.StreamingHandlerFunc) connect
 	}
 }
 
+// c12HandlerProc is how the handler under test spells its procedure (the
+// spec-agreement family varies it; workers are single-threaded).
+var c12HandlerProc = Procedure
+
 func c12Handler(kind Kind, codecs string, counts *c12Counts) *connect.Handler {
 	// The counting interceptor sits in a second interceptor option behind a
 	// two-element one, and the same option values have already been applied by
@@ -184,7 +219,7 @@ func c12Handler(kind Kind, codecs string, counts *c12Counts) *connect.Handler {
 	for _, other := range []Kind{KUnary, KBidi} {
 		_ = NewHandler(other, func(context.Context, HStream) error { return nil }, opts...)
 	}
-	return NewHandler(kind, func(ctx context.Context, s HStream) error {
+	return NewHandlerAt(c12HandlerProc, kind, func(ctx context.Context, s HStream) error {
 		counts.user++
 		if kind == KUnary || kind == KServer {
 			counts.userSpecs = append(counts.userSpecs, s.Spec())
@@ -209,27 +244,29 @@ func envelope(flags byte, payload []byte) []byte {
 func c12Check(c *ev.Collector, k c12Case) {
 	counts := &c12Counts{}
 	h := c12Handler(k.Kind, k.Codecs, counts)
-	payload, _ := proto.Marshal(&BV{Value: []byte{5}})
-	if strings.HasSuffix(k.ContentType, "json") {
-		payload = []byte(`"BQ=="`)
+	if k.Prior != "" {
+		var prior *http.Request
+		switch {
+		case k.Prior == "415":
+			prior = c12Request(k.Kind, k.Codecs, "POST", 2, 0, "text/plain")
+		case k.Prior == "405":
+			prior = c12Request(k.Kind, k.Codecs, "GET", 2, 0, "")
+		default:
+			prior = c12Request(k.Kind, k.Codecs, "POST", 2, 0, strings.TrimPrefix(k.Prior, "ct:"))
+		}
+		pg := Guarded(func() { h.ServeHTTP(httptest.NewRecorder(), prior) })
+		if pg.Hung {
+			BailIfStuck(c, pg)
+		}
+		*counts = c12Counts{}
 	}
-	body := envelope(0, payload)
-	if k.Kind == KUnary && !strings.HasPrefix(k.ContentType, "application/grpc") {
-		body = payload
-	}
-	if k.Kind == KUnary && k.Codecs == "grpc-named" && k.ContentType == "application/grpc" {
-		body = payload // claimed by the Connect protocol with the codec named "grpc"
-	}
-	req := httptest.NewRequest("POST", "http://mem.test"+Procedure, bytes.NewReader(body))
-	req.Method = k.Method
-	req.ProtoMajor, req.ProtoMinor = k.Major, k.Minor
-	req.Proto = fmt.Sprintf("HTTP/%d.%d", k.Major, k.Minor)
-	if k.ContentType != "" {
-		req.Header.Set("Content-Type", k.ContentType)
-	}
+	req := c12Request(k.Kind, k.Codecs, k.Method, k.Major, k.Minor, k.ContentType)
 	rec := httptest.NewRecorder()
 	g := Guarded(func() { h.ServeHTTP(rec, req) })
 	tags := []string{"kind=" + k.Kind.String(), "codecs=" + k.Codecs}
+	if k.Prior != "" {
+		tags = append(tags, "after-earlier-request")
+	}
 	viol := func(clause, outcome, format string, args ...any) {
 		c.Violation("TestC12", clause, outcome, tags, k, "%s: "+format, append([]any{k.key()}, args...)...)
 	}
@@ -339,6 +376,55 @@ func streamTypeOf(k Kind) connect.StreamType {
 func c12SpecAgreement(t *testing.T, c *ev.Collector) {
 	bases := []string{"http://h", "http://h/", "http://h/pre/fix", "https://h:1/pre/", "http://h//", "http://h/a.b.C/D"}
 	idx := 0
+	// the handler's constructor is given the procedure in other spellings than the canonical one
+	// (mounted under a prefix, without the leading slash, as a URL): the Spec is canonical all the same
+	for _, hproc := range []string{"/api/v1" + Procedure, "api/v1" + Procedure, "http://h/api" + Procedure, Procedure[1:]} {
+		for _, kind := range AllKinds {
+			idx++
+			if !ev.Mine(idx) {
+				continue
+			}
+			key := fmt.Sprintf("spec/handler-built-for-%s/%s", hproc, kind)
+			c.Case(key, true)
+			Bubble(t, func() {
+				hc, cc := &c12Counts{}, &c12Counts{}
+				c12HandlerProc = hproc
+				h := c12Handler(kind, "default", hc)
+				c12HandlerProc = Procedure
+				tr := &memhttp.Transport{Handler: h, Proto: 2, SyncCloseReq: true}
+				cl := connect.NewClient[BV, BV](tr, "http://h/api/v1"+Procedure, connect.WithInterceptors(countI{cc}))
+				var res CallResult
+				g := Guarded(func() { res = RunCall(context.Background(), cl, kind, [][]byte{{1}}, nil) }, tr)
+				c.AddTransitions(3)
+				c.AddStates(3)
+				c.AddTraces(1)
+				tags := []string{"kind=" + kind.String(), "spec-agreement", "handler-procedure-spelling"}
+				if g.Hung || g.Panicked || res.Err != nil {
+					c.Violation("TestC12", "spec-agreement", "call-failed", tags, key, "%s: hung=%v panic=%v err=%v", key, g.Hung, g.Panic, res.Err)
+					BailIfStuck(c, g)
+					return
+				}
+				if len(cc.specs) != 1 || len(hc.specs) != 1 {
+					c.Violation("TestC12", "spec-agreement", "count", tags, key, "%s: client interceptor ran %d times, handler interceptor %d times", key, len(cc.specs), len(hc.specs))
+					return
+				}
+				cs, hs := cc.specs[0], hc.specs[0]
+				if cs.Procedure != hs.Procedure || cs.Procedure != Procedure {
+					c.Violation("TestC12", "spec-agreement", "differs", tags, key, "%s: client saw %+v, handler saw %+v", key, cs, hs)
+					c.Outcome("violation")
+					return
+				}
+				for _, us := range hc.userSpecs {
+					if us != hs {
+						c.Violation("TestC12", "spec-agreement", "user-differs", tags, key, "%s: handler user code saw Request.Spec() %+v, interceptors saw %+v", key, us, hs)
+						c.Outcome("violation")
+						return
+					}
+				}
+				c.Outcome("spec-ok")
+			})
+		}
+	}
 	for _, base := range bases {
 		for _, trimmed := range []bool{true, false} {
 			for _, kind := range AllKinds {
@@ -560,6 +646,25 @@ func TestC12(t *testing.T) {
 							c.Sample(k)
 						}
 					}
+				}
+			}
+		}
+	}
+	// history: the same requests to a Handler that has already served one other request
+	for _, kind := range AllKinds {
+		for _, cs := range codecSets {
+			ref := c12Reference(kind, cs)
+			judged := append(append([]string{}, ref...), "", "text/plain", "application/grpc+thrift")
+			priors := []string{"415", "405", "ct:" + ref[0], "ct:" + ref[len(ref)-1]}
+			for _, ct := range judged {
+				for _, pr := range priors {
+					idx++
+					if !ev.Mine(idx) {
+						continue
+					}
+					k := c12Case{Kind: kind, Codecs: cs, Method: "POST", Major: 2, Minor: 0, ContentType: ct, Prior: pr}
+					c.Case(k.key(), true)
+					Bubble(t, func() { c12Check(c, k) })
 				}
 			}
 		}
